@@ -6,6 +6,7 @@ import (
 	"math/rand"
 	"os"
 	"path/filepath"
+	"strings"
 
 	"github.com/thomasjungblut/go-sstables/recordio"
 )
@@ -249,8 +250,8 @@ func (c *c04Case) Oracle() (bool, string) {
 			return false, fmt.Sprintf("mixed program step %d: skip failed: %s", i, got.Err)
 		}
 	}
-	// seek-next: first surviving record starting at or after the offset (only stated for files without embedded images)
-	if !c.Embedded {
+	// seek-next: first surviving record starting at or after the offset
+	{
 		for _, so := range c.Seeks {
 			var want *surv
 			for i := range sv {
@@ -442,6 +443,15 @@ func genC04(r *rand.Rand, tier string) []Case {
 		}
 		cases = append(cases, c)
 	}
+	// a payload that contains the complete image of a record (a record whose payload is itself a serialized record)
+	for k := 0; k < 2; k++ {
+		c := &c04Case{Comp: 0, WBuf: 4096, RBuf: 4096, SeekLen: []int{4, 4096}[k], Embedded: true}
+		inner := recImage([]byte(fmt.Sprintf("inner record %d", k)))
+		outer := append(append([]byte("xx"), inner...), []byte("yy")...)
+		c.Prog = []wOp{{Op: "write", Rec: []byte("first")}, {Op: "write", Rec: outer}, {Op: "write", Rec: []byte("third")}}
+		c.ReadProg = []bool{true, false, true, true}
+		cases = append(cases, c)
+	}
 	if dio {
 		// direct I/O with a seek back to a block boundary and a shorter rewrite: what lies beyond must be cut off.
 		// The first record is sized so that (with the usual 5-byte checksum varint) it ends at offset 4096.
@@ -471,6 +481,45 @@ func init() {
 		Gen:  genC04,
 		New:  func() Case { return &c04Case{} },
 		Rule: "writer programs of Write/WriteSync/Seek(back to a boundary)/Close over adversarial payloads (nil, empty, marker bytes and proper marker prefixes at the end of a payload, leading zero, sizes within +-2 of a buffer size) x 4 compression types x write/read buffer sizes {1,2,7,16,64,4096,1Mi} x scan window {4,5,7,16,4096} (+ direct I/O when the file system allows); observed: returned offsets, Size, file bytes, sequential read, ReadNextAt at every surviving offset, a random read/skip program, SeekNext from every byte offset (sampled for files > 600 bytes). Non-trivial: >=2 records and one of {nil, empty, marker byte, seek-back, size within +-2 of a buffer}.",
+		Classify: func(cs Case, msg string) string {
+			// F-C04e: a payload embeds the complete image of a record; SeekNext from an offset before that image (inside the
+			// payload or before the record) stops at the image. Every wrong answer must be exactly that.
+			c := cs.(*c04Case)
+			if !c.Embedded || c.Fatal != "" || !strings.HasPrefix(msg, "SeekNext(") {
+				return ""
+			}
+			sv := c.survivors()
+			inside := func(off uint64) bool {
+				for _, s := range sv {
+					if off > s.off && off < s.off+uint64(len(recImage(s.rec))) {
+						return true
+					}
+				}
+				return false
+			}
+			bad := 0
+			for _, so := range c.Seeks {
+				var want *surv
+				for i := range sv {
+					if sv[i].off >= so.From {
+						want = &sv[i]
+						break
+					}
+				}
+				ok := (want == nil && so.Rec.Err == "EOF") || (want != nil && so.Rec.Err == "" && so.Off == want.off && recMatches(so.Rec, *want))
+				if ok {
+					continue
+				}
+				bad++
+				if so.Rec.Err != "" || !inside(so.Off) {
+					return "" // not the embedded image
+				}
+			}
+			if bad > 0 {
+				return "F-C04e"
+			}
+			return ""
+		},
 		Shrink: func(cs Case) []Case {
 			c := cs.(*c04Case)
 			var out []Case
